@@ -601,3 +601,20 @@ FIXED_TEXTS = [
     "SELECT a FROM t GROUP BY GROUPING SETS ( ( a ) ) WITH ROLLUP", "SELECT a FROM t GROUP BY ROLLUP ( GROUPING SETS ( a ) )", "SELECT a FROM t GROUP BY GROUPING SETS ( * )",
     "SELECT " + "( " * 98 + "a" + " )" * 98 + " FROM t", "SELECT " + "( " * 99 + "a" + " )" * 99 + " FROM t", "SELECT " + "NOT " * 99 + "a FROM t",
 ]
+
+
+# OVER ( window specification ): modelled in Model/ExprParse.v (parse_window_spec / parse_window_frame / parse_frame_bound), outside the
+# reference expressions of the theorems: hand-picked texts for tie (a) - both frame forms, every bound kind, every error branch
+WINDOW_TEXTS = [
+    "SELECT SUM ( a ) OVER ( PARTITION BY b , c ORDER BY d DESC NULLS LAST , e ROWS BETWEEN 1 PRECEDING AND CURRENT ROW ) FROM t",
+    "SELECT SUM ( a ) OVER ( ORDER BY d ROWS 5 PRECEDING ) FROM t", "SELECT SUM ( a ) OVER ( ORDER BY d range UNBOUNDED PRECEDING ) FROM t",
+    "SELECT SUM ( a ) OVER ( ROWS CURRENT ROW ) FROM t", "SELECT SUM ( a ) OVER ( RANGE 2 FOLLOWING ) x FROM t", "SELECT ROW_NUMBER ( ) OVER ( ) FROM t",
+    "SELECT SUM ( a ) OVER ( RANGE BETWEEN UNBOUNDED PRECEDING AND UNBOUNDED FOLLOWING ) x FROM t",
+    "SELECT SUM ( a ) OVER ( ROWS BETWEEN a + 1 FOLLOWING AND 2 FOLLOWING ) , b FROM t", "SELECT SUM ( a ) OVER ( ROWS BETWEEN CURRENT ROW AND 3 FOLLOWING ) FROM t",
+    "SELECT SUM ( a ) OVER ( PARTITION BY b ) + 1 , RANK ( ) OVER ( ORDER BY c ASC NULLS FIRST ) AS r FROM t ORDER BY SUM ( a ) OVER ( ORDER BY d )",
+    "SELECT SUM ( a ) OVER ( ROWS CURRENT ) FROM t", "SELECT SUM ( a ) OVER ( ROWS BETWEEN 1 PRECEDING ) FROM t", "SELECT SUM ( a ) OVER w FROM t",
+    "SELECT SUM ( a ) OVER ( PARTITION b ) FROM t", "SELECT SUM ( a ) OVER ( ORDER a ) FROM t", "SELECT SUM ( a ) OVER ( ORDER BY a ROWS 1 ) FROM t",
+    "SELECT SUM ( a ) OVER ( ROWS UNBOUNDED ) FROM t", "SELECT SUM ( a ) OVER ( ORDER BY a PARTITION BY b ) FROM t", "SELECT SUM ( a ) OVER ( PARTITION BY b", "SELECT SUM ( a ) OVER ( ORDER BY a NULLS ) FROM t",
+    "SELECT SUM ( a ) OVER ( ROWS BETWEEN 1 PRECEDING AND ) FROM t", "SELECT SUM ( a ) OVER ( ROWS 1 PRECEDING AND CURRENT ROW ) FROM t",
+]
+FIXED_TEXTS += WINDOW_TEXTS
